@@ -682,6 +682,115 @@ done:
     R.subspaces.push_back(sub);
 }
 
+static std::vector<std::string> g_seed_fens;
+
+static std::vector<std::string> board_reports(const std::string& out)
+{
+    // every `Fen: "..."` + `Hash: ...` pair printed by printboard
+    std::vector<std::string> v;
+    std::istringstream is(out);
+    std::string l, fen;
+    while (std::getline(is, l))
+    {
+        if (l.rfind("Fen: \"", 0) == 0) fen = l.substr(6, l.size() - 7);
+        else if (l.rfind("Hash: ", 0) == 0) v.push_back(fen + " #" + l.substr(6));
+    }
+    return v;
+}
+
+// C02 through the text protocol: `position fen F moves ...` + printboard vs the reference model
+static void list_ucipath()
+{
+    mc::Subspace sub;
+    sub.name = "position ... moves ... through Uci::loop";
+    int depth = TIER == "quick" ? 2 : 3;
+    sub.bound = "every move path up to " + std::to_string(depth) + " plies from every seed, sent as ONE `position fen F moves m1..mk` line; printboard FEN vs refchess";
+    for (auto& fen : g_seed_fens)
+    {
+        ref::Pos root;
+        ref::parse_fen(fen, root);
+        std::function<void(const ref::Pos&, const std::string&, int)> rec = [&](const ref::Pos& p, const std::string& moves, int d) {
+            if (R.out_of_time()) return;
+            if (mine())
+            {
+                sess::Spec sp;
+                sp.lines = {"position fen " + fen + (moves.empty() ? "" : " moves" + moves), "printboard"};
+                sess::Outcome o = g_inproc ? sess::run_inproc(*g_uci, sp) : sess::run(*g_uci, sp);
+                R.count("sessions");
+                sub.states++;
+                auto reps = board_reports(o.output);
+                std::string want = ref::fen(p);
+                std::string got = reps.empty() ? "(no printboard output)" : reps.back().substr(0, reps.back().find(" #"));
+                if (got != want)
+                    R.violation("C02:uci_text_path", mc::JObj().s("position_line", sp.lines[0]).s("engine_fen", got).s("rules_fen", want));
+                else
+                    R.outcome(std::to_string(d));
+                if (sub.states == 20) R.sample(mc::JObj().s("position_line", sp.lines[0]).s("fen", got).str());
+            }
+            if (d == depth) return;
+            std::vector<ref::Mv> lm;
+            ref::gen_legal(p, lm);
+            ref::Pos t;
+            for (auto& m : lm)
+            {
+                ref::make(p, m, t);
+                sub.transitions++;
+                rec(t, moves + " " + ref::uci(m), d + 1);
+            }
+        };
+        rec(root, "", 0);
+    }
+    sub.exhaustive = !R.out_of_time();
+    R.subspaces.push_back(sub);
+}
+
+// C03 (iv): a search or perft never alters the position it was asked about
+static void list_ucikeep()
+{
+    mc::Subspace sub;
+    sub.name = "go / perft leave the UCI position unchanged";
+    sub.bound = "every seed and every position one ply below it: printboard+hash before == after `go depth 1..3`, `go depth 2` stopped at every 7th node visit, `perft 1..3`";
+    for (auto& fen : g_seed_fens)
+    {
+        ref::Pos root;
+        ref::parse_fen(fen, root);
+        std::vector<ref::Mv> lm;
+        ref::gen_legal(root, lm);
+        std::vector<std::string> positions{"position fen " + fen};
+        for (auto& m : lm) positions.push_back("position fen " + fen + " moves " + ref::uci(m));
+        bool big = lm.size() > 60;
+        for (auto& pl : positions)
+        {
+            std::vector<std::pair<std::string, long long>> cmds = {{"go depth 1", -1}, {"go depth 2", -1}, {"perft 1", -1}, {"perft 2", -1}};
+            if (!big) cmds.push_back({"go depth 3", -1});
+            if (!big) cmds.push_back({"perft 3", -1});
+            for (long long k = 0; k < 60; k += 7) cmds.push_back({"go depth 2", k});
+            for (auto& c : cmds)
+            {
+                if (!mine()) continue;
+                if (R.out_of_time()) goto done;
+                sess::Spec sp;
+                sp.lines = {pl, "printboard", c.first, "printboard"};
+                sp.stop_at = c.second;
+                sess::Outcome o = g_inproc ? sess::run_inproc(*g_uci, sp) : sess::run(*g_uci, sp);
+                R.count("sessions");
+                sub.states++;
+                auto reps = board_reports(o.output);
+                if (reps.size() != 2 || reps[0] != reps[1])
+                    R.violation(std::string("C03:uci_position_changed_by:") + (c.first[0] == 'g' ? "go" : "perft"),
+                                mc::JObj().s("position_line", pl).s("command", c.first).n("stop_at", c.second).s("before", reps.empty() ? "" : reps[0]).s("after", reps.size() > 1 ? reps[1] : ""));
+                else
+                    R.outcome(c.first);
+                if (sub.states == 20) R.sample(mc::JObj().s("position_line", pl).s("command", c.first).str());
+            }
+        }
+    }
+    sub.exhaustive = true;
+done:
+    sub.transitions = sub.states;
+    R.subspaces.push_back(sub);
+}
+
 // C20 at the search seam: virtual thinking time of `go wtime T btime T ...` must stay within 70 % of T
 static void list_clockseam()
 {
@@ -741,6 +850,21 @@ int main(int argc, char** argv)
         else if (a == "--deadline") R.deadline_s = atof(argv[++i]);
         else if (a == "--replay") replay = argv[++i];
         else if (a == "--inproc") g_inproc = true;
+        else if (a == "--seeds")
+        {
+            FILE* f = fopen(argv[++i], "r");
+            char buf[512];
+            while (f && fgets(buf, sizeof buf, f))
+            {
+                std::string l(buf);
+                size_t tab = l.find('\t');
+                if (l.empty() || l[0] == '#' || tab == std::string::npos) continue;
+                std::string fen = l.substr(tab + 1);
+                while (!fen.empty() && (fen.back() == '\n' || fen.back() == ' ')) fen.pop_back();
+                g_seed_fens.push_back(fen);
+            }
+            if (f) fclose(f);
+        }
         else if (a == "--shard")
         {
             std::string v = argv[++i];
@@ -811,6 +935,8 @@ int main(int argc, char** argv)
     else if (list == "mates") list_mates(sigspec);
     else if (list == "depths") list_depths();
     else if (list == "clockseam") list_clockseam();
+    else if (list == "ucipath") list_ucipath();
+    else if (list == "ucikeep") list_ucikeep();
     else return 2;
     return R.write(out) ? 0 : 2;
 }
